@@ -42,18 +42,24 @@ OptSets == IF OptLevel = "few"
 
 \* negatable built-in tests (string: Len, Contains) and plain ones (string: Min; int: GTE, LTE)
 NegKinds == CASE ChainTy = "str" -> {"len", "has"} [] ChainTy = "str2" -> {"upper", "special", "pre"} [] OTHER -> {}
-PlainKinds == IF ChainTy \in {"str", "str2"} THEN {"min"} ELSE {"gte", "lte"}
+PlainKinds == CASE ChainTy \in {"str", "str2"} -> {"min"} [] ChainTy = "bool" -> {"eq"} [] OTHER -> {"gte", "lte"}
+\* the values Default / Catch / a test parameter range over (false is a value like any other)
+ValsOf == IF ChainTy = "bool" THEN [def |-> {0, 1}, catch |-> {0, 1}, n |-> {1}] ELSE [def |-> {1, 3}, catch |-> {5, 6}, n |-> {2}]
 NodeTy == IF ChainTy = "str2" THEN "str" ELSE ChainTy
 
 BaseCode(kind) == CASE kind = "has" -> "contained" [] kind = "upper" -> "contains_upper" [] kind = "special" -> "contains_special" [] kind = "pre" -> "prefix" [] OTHER -> kind
 NegKind(kind) == CASE kind = "len" -> "nlen" [] kind = "has" -> "nhas" [] kind = "upper" -> "nupper" [] kind = "special" -> "nspecial" [] kind = "pre" -> "npre" [] OTHER -> kind
 
-TestCalls(kinds) == {Call("t", k, n, o.code, o.path, o.msg) : k \in kinds, n \in {2}, o \in OptSets}
+\* (Bool().EQ takes no options)
+TestCalls(kinds) == {Call("t", k, n, o.code, o.path, o.msg) : k \in kinds, n \in ValsOf.n,
+                                                              o \in IF ChainTy = "bool" THEN {[code |-> "", path |-> "", msg |-> ""]} ELSE OptSets}
 OtherCalls ==
-  {Call("tf", "lte", 3, o.code, o.path, o.msg) : o \in {x \in OptSets : x.code # ""}}
+  {Call("tf", IF ChainTy = "bool" THEN "eq" ELSE "lte", IF ChainTy = "bool" THEN 1 ELSE 3, o.code, o.path, o.msg) : o \in {x \in OptSets : x.code # ""}}
   \cup {Call("req", "", 0, "", "", m) : m \in {"", "rm"}}
-  \cup {Call("opt", "", 0, "", "", ""), Call("def", "", 1, "", "", ""), Call("catch", "", 5, "", "", "")}
-  \cup (IF OptLevel = "few" THEN {} ELSE {Call("def", "", 3, "", "", ""), Call("catch", "", 6, "", "", "")})
+  \cup {Call("opt", "", 0, "", "", "")}
+  \cup (IF ChainTy = "bool" THEN {Call("def", "", v, "", "", "") : v \in ValsOf.def} \cup {Call("catch", "", v, "", "", "") : v \in ValsOf.catch}
+        ELSE {Call("def", "", 1, "", "", ""), Call("catch", "", 5, "", "", "")}
+             \cup (IF OptLevel = "few" THEN {} ELSE {Call("def", "", 3, "", "", ""), Call("catch", "", 6, "", "", "")}))
 
 \* what the Go type system admits after a given call: Not() returns an interface with the negatable tests only
 NextCalls(prev) ==
